@@ -221,7 +221,7 @@ pub fn seeded_runs(ctx: &mut Ctx, prop: &str, oracles: u32, clauses: u32, quick_
                 }
             }
         }
-        seeded_group(ctx, prop, oracles, clauses, 3, vec![3, 20, 200], &specs, 400_000, 60.0);
+        seeded_group(ctx, prop, oracles, clauses, 3, vec![3, 20, 200], &specs, 400_000, 30.0);
     } else {
         for (file, eps, free_slots) in [("val", 16u64, 0usize), ("val", 0, 2), ("key", 16, 0), ("key", 0, 2), ("both", 16, 2)] {
             specs.push(SeedSpec { file, boundary: 16 * 1024, eps, free_slots, val_pad: 0 });
